@@ -32,13 +32,14 @@ const verifAppMsg = msgChannelData // application packets are tagged channel-dat
 
 // VerifC31Params describes one scenario.
 type VerifC31Params struct {
-	ClientWriters, ServerWriters int // writer goroutines per side
-	PerWriter                    int // tagged packets each writer sends
-	PacketLen                    int // payload length of each application packet (>= 4)
-	ClientRequest, ServerRequest bool // explicit requestKeyExchange racing with the traffic
+	ClientWriters, ServerWriters int    // writer goroutines per side
+	PerWriter                    int    // tagged packets each writer sends
+	PacketLen                    int    // payload length of each application packet (>= 4)
+	ClientRequest, ServerRequest bool   // explicit requestKeyExchange racing with the traffic
 	Threshold                    uint64 // RekeyThreshold for both sides (0 = default, i.e. no threshold re-key here)
-	LateWriter                   int // packets written by a goroutine started after the prefill (lowest scheduling priority: it is the one left waiting on the full queue)
-	Prefill                      int // packets the client queues right after requesting a re-key (to overflow the pending queue)
+	GapWriter                    bool   // a low-priority writer: one packet after the client's re-key KEXINIT is on the wire (queued), two more once its NEWKEYS is on the wire
+	LateWriter                   int    // packets written by a goroutine started after the prefill (lowest scheduling priority: it is the one left waiting on the full queue)
+	Prefill                      int    // packets the client queues right after requesting a re-key (to overflow the pending queue)
 }
 
 // VerifC31Result is the observation of one execution.
@@ -89,8 +90,12 @@ func VerifC31Run(p VerifC31Params) *VerifC31Result {
 		return res
 	}
 
+	verifMark() // the session is up: scenarios explored "from the mark" place deviations only from here
 	var mu sync.Mutex
 	wantS := p.ClientWriters*p.PerWriter + p.Prefill + p.LateWriter
+	if p.GapWriter {
+		wantS += 3
+	}
 	wantC := p.ServerWriters * p.PerWriter
 	allS, allC := make(chan struct{}), make(chan struct{})
 	reader := func(t *handshakeTransport, got *[]uint32, want int, all chan struct{}, who string) {
@@ -156,6 +161,40 @@ func VerifC31Run(p VerifC31Params) *VerifC31Result {
 	for i := 0; i < p.ServerWriters; i++ {
 		wg.Add(1)
 		go writer(server, i+51)
+	}
+	if p.GapWriter {
+		kexinit, newkeys := make(chan struct{}, 8), make(chan struct{}, 8)
+		a.OnWrite = func(pkt []byte) {
+			switch pkt[0] {
+			case msgKexInit:
+				kexinit <- struct{}{}
+			case msgNewKeys:
+				newkeys <- struct{}{}
+			}
+		}
+		wg.Add(1)
+		go func() {
+			defer wg.Done()
+			send := func(s int) bool {
+				if err := client.writePacket(verifC31Pkt(97, s, p.PacketLen)); err != nil {
+					mu.Lock()
+					res.WriteErrs++
+					res.Errs = append(res.Errs, fmt.Sprintf("gap writer: %v", err))
+					mu.Unlock()
+					return false
+				}
+				return true
+			}
+			<-kexinit
+			if !send(0) {
+				return
+			}
+			<-newkeys
+			if send(1) {
+				send(2)
+			}
+		}()
+		client.requestKeyExchange()
 	}
 	if p.Prefill > 0 {
 		// The body itself (goroutine 0, preferred by the default schedule) floods the
